@@ -149,6 +149,9 @@ package sonic
 //@           (forall k :: IN[k] == old(IN[k]) && IDX[k] == old(IDX[k]) && LEN[k] == old(LEN[k]))
 //@   ensures [dup] old(IN[seq]) == 1 ==> !ok
 //@   ensures [bytes-cap] old(s.bytes) + slot.Length > s.maxBytes ==> !ok && err == ErrNoSpaceLeftForSlot
+//@   // nothing else is refused: a new sequence number that fits the byte budget, the slot budget and the offset table is parked
+//@   ensures [accepted] old(IN[seq]) != 1 && old(s.bytes) + slot.Length <= s.maxBytes && old(len(s.container.slots)) < s.container.maxSlots &&
+//@           slot.Index + total < len(s.offsetter.tree.data) ==> ok
 //@   ensures [slots-cap] old(IN[seq]) != 1 && old(len(s.container.slots)) >= s.container.maxSlots ==> !ok && err != nil
 //@   ensures [offsets-kept] forall k :: util.P[k] == old(util.P[k])
 
